@@ -68,6 +68,7 @@ func init() {
 		partRegistryStorms(c, a)
 		partStepThrough(c, a, []string{"lastleave", "create", "switch", "join", "leave", "join-vs-lastleave"})
 		partStepPairs(c, a, [][2]string{{"lastleave", "join2"}, {"lastleave", "leave2"}, {"switch", "join2"}, {"leave", "join2"}, {"join", "leave2"}})
+		partRealRegistryAcrossReregistration(c, a) // sessions that outlive a change of the server id still end
 		return a.finish(c)
 	}
 }
